@@ -35,7 +35,12 @@ type Op struct {
 type setCase struct {
 	Ordered bool `json:"ordered"`
 	Synced  bool `json:"synced"`
-	Ops     []Op `json:"ops"`
+	// the peer is a second, persistent set (its own flavour) that the
+	// first one extends from and that extends from the first one: what
+	// one set does must never show in the other
+	PeerOrdered bool `json:"peer_ordered,omitempty"`
+	PeerSynced  bool `json:"peer_synced,omitempty"`
+	Ops         []Op `json:"ops"`
 }
 
 type sworld struct {
@@ -48,17 +53,41 @@ type sworld struct {
 	failing bool
 	cls     map[string]bool
 	mut     int
+	peer    *sworld // nil in the peer itself
+	isPeer  bool
 }
 
 func (w *sworld) mk() *dt.Set[int] {
 	s := &dt.Set[int]{}
-	if w.c.Synced {
+	synced, ordered := w.c.Synced, w.c.Ordered
+	if w.isPeer {
+		synced, ordered = w.c.PeerSynced, w.c.PeerOrdered
+	}
+	if synced {
 		s.Synchronize()
 	}
-	if w.c.Ordered {
+	if ordered {
 		s.Order()
 	}
 	return s
+}
+
+// newPeer builds the second set of the world.
+func (w *sworld) newPeer() {
+	p := &sworld{t: w.t, c: w.c, cls: w.cls, listed: w.c.PeerOrdered, isPeer: true}
+	p.s = p.mk()
+	w.peer = p
+}
+
+// extendFrom models dst.Extend(src) for two persistent sets.
+func (w *sworld) extendFrom(src *sworld) {
+	before := len(w.order)
+	w.s.Extend(src.s)
+	w.addAll(src.order)
+	if w.listed && !src.listed {
+		w.resyncTail(before)
+	}
+	w.mut++
 }
 
 func (w *sworld) fail(f string, a ...any) {
@@ -329,10 +358,37 @@ func (w *sworld) applyStep(o Op) {
 				w.fail("NewSetFromSlice(%v) holds %v", o.Vs, got)
 			}
 		}
+	case "PeerAdd":
+		w.peer.cur = o
+		w.peer.s.Add(o.V)
+		w.peer.add(o.V)
+	case "PeerDelete":
+		w.peer.cur = o
+		if got := w.peer.s.DeleteCheck(o.V); got != w.peer.has(o.V) {
+			w.peer.fail("DeleteCheck(%d)=%v, was member: %v", o.V, got, w.peer.has(o.V))
+		}
+		w.peer.del(o.V)
+		w.cls["peer-delete"] = true
+	case "PeerSort":
+		w.peer.cur = o
+		w.peer.s.SortQuick(cmp.LessThanNative[int])
+		sort.Ints(w.peer.order)
+		w.peer.listed = true
+	case "ExtendFromPeer":
+		w.extendFrom(w.peer)
+		w.cls["extend-from-peer"] = true
+	case "PeerExtendFromMain":
+		w.peer.cur = o
+		w.peer.extendFrom(w)
+		w.cls["peer-extends-from-main"] = true
 	default:
 		panic("unknown op " + o.Op)
 	}
 	w.check()
+	if w.peer != nil {
+		w.peer.cur = o
+		w.peer.check()
+	}
 }
 
 // resyncTail accepts any order of the members appended since `before`
@@ -351,6 +407,7 @@ func (w *sworld) resyncTail(before int) {
 func runSetCase(t vkit.TB, c *setCase) *sworld {
 	w := &sworld{t: t, c: c, cls: map[string]bool{}, listed: c.Ordered}
 	w.s = w.mk()
+	w.newPeer()
 	w.cur = Op{Op: "new"}
 	w.check()
 	for _, o := range c.Ops {
@@ -368,25 +425,31 @@ func TestSetModel(t *testing.T) {
 		return
 	}
 	rapid.Check(t, func(t *rapid.T) {
-		c := &setCase{Ordered: rapid.Bool().Draw(t, "ordered"), Synced: rapid.Bool().Draw(t, "synced")}
+		c := &setCase{Ordered: rapid.Bool().Draw(t, "ordered"), Synced: rapid.Bool().Draw(t, "synced"), PeerOrdered: rapid.Bool().Draw(t, "peerOrdered"), PeerSynced: rapid.Bool().Draw(t, "peerSynced")}
 		w := &sworld{t: t, c: c, cls: map[string]bool{}, listed: c.Ordered}
 		w.s = w.mk()
+		w.newPeer()
 		val := func() int { return rapid.IntRange(0, 7).Draw(t, "v") }
 		vals := func() []int { return rapid.SliceOfN(rapid.IntRange(0, 7), 0, 5).Draw(t, "vs") }
 		do := func(o Op) { c.Ops = append(c.Ops, o); w.apply(o) }
 		t.Repeat(map[string]func(*rapid.T){
-			"Add":           func(*rapid.T) { do(Op{Op: "Add", V: val()}) },
-			"AddCheck":      func(*rapid.T) { do(Op{Op: "AddCheck", V: val()}) },
-			"Delete":        func(*rapid.T) { do(Op{Op: "Delete", V: val()}) },
-			"DeleteCheck":   func(*rapid.T) { do(Op{Op: "DeleteCheck", V: val()}) },
-			"Populate":      func(*rapid.T) { do(Op{Op: "Populate", Vs: vals()}) },
-			"Extend":        func(*rapid.T) { do(Op{Op: "Extend", Vs: vals()}) },
-			"SortQuick":     func(*rapid.T) { do(Op{Op: "SortQuick"}) },
-			"SortMerge":     func(*rapid.T) { do(Op{Op: "SortMerge"}) },
-			"JSON":          func(*rapid.T) { do(Op{Op: "JSON"}) },
-			"UnmarshalInto": func(*rapid.T) { do(Op{Op: "UnmarshalInto", Vs: vals()}) },
-			"Equal":         func(*rapid.T) { do(Op{Op: "Equal", Mode: rapid.IntRange(0, 4).Draw(t, "mode"), V: val()}) },
-			"FromSlice":     func(*rapid.T) { do(Op{Op: "FromSlice", Vs: vals()}) },
+			"Add":                func(*rapid.T) { do(Op{Op: "Add", V: val()}) },
+			"AddCheck":           func(*rapid.T) { do(Op{Op: "AddCheck", V: val()}) },
+			"Delete":             func(*rapid.T) { do(Op{Op: "Delete", V: val()}) },
+			"DeleteCheck":        func(*rapid.T) { do(Op{Op: "DeleteCheck", V: val()}) },
+			"Populate":           func(*rapid.T) { do(Op{Op: "Populate", Vs: vals()}) },
+			"Extend":             func(*rapid.T) { do(Op{Op: "Extend", Vs: vals()}) },
+			"SortQuick":          func(*rapid.T) { do(Op{Op: "SortQuick"}) },
+			"SortMerge":          func(*rapid.T) { do(Op{Op: "SortMerge"}) },
+			"JSON":               func(*rapid.T) { do(Op{Op: "JSON"}) },
+			"UnmarshalInto":      func(*rapid.T) { do(Op{Op: "UnmarshalInto", Vs: vals()}) },
+			"Equal":              func(*rapid.T) { do(Op{Op: "Equal", Mode: rapid.IntRange(0, 4).Draw(t, "mode"), V: val()}) },
+			"FromSlice":          func(*rapid.T) { do(Op{Op: "FromSlice", Vs: vals()}) },
+			"PeerAdd":            func(*rapid.T) { do(Op{Op: "PeerAdd", V: val()}) },
+			"PeerDelete":         func(*rapid.T) { do(Op{Op: "PeerDelete", V: val()}) },
+			"PeerSort":           func(*rapid.T) { do(Op{Op: "PeerSort"}) },
+			"ExtendFromPeer":     func(*rapid.T) { do(Op{Op: "ExtendFromPeer"}) },
+			"PeerExtendFromMain": func(*rapid.T) { do(Op{Op: "PeerExtendFromMain"}) },
 		})
 		classes := []string{fmt.Sprintf("ordered=%v", c.Ordered), fmt.Sprintf("synced=%v", c.Synced)}
 		for k := range w.cls {
@@ -410,9 +473,9 @@ type cop struct {
 }
 
 type concCase struct {
-	Ordered bool    `json:"ordered"`
-	Procs   int     `json:"gomaxprocs"`
-	Threads [][]cop `json:"threads"`
+	Ordered bool     `json:"ordered"`
+	Procs   int      `json:"gomaxprocs"`
+	Threads [][]cop  `json:"threads"`
 	History []string `json:"history,omitempty"`
 }
 
